@@ -39,6 +39,9 @@ def Sev.name : Sev → String
 /-- `ErrorDescriptor::GreaterSeverity` -/
 def Sev.greater (cur s : Sev) : Sev := if s.toInt < cur.toInt then s else cur
 
+/-- `if( b ) err->GreaterSeverity( SEVERITY_WARNING )` -/
+def Sev.warnIf (err : Sev) (b : Bool) : Sev := if b then err.greater .warning else err
+
 /-- what differs between source versions (regenerated into `Generated.lexCfg`) -/
 structure LexCfg where
   /-- `ReadInteger` reports an error when `in >> i` fails on non-blank input -/
@@ -101,7 +104,7 @@ def readInteger (cfg : LexCfg) (delims : Option (List Byte)) (s : IStream) (err 
   let blank := s1.eof
   let (o, s2) := s1.extractLong
   let val : Option Int := if !s2.failed then o else none
-  let err1 := if s2.failed && cfg.intReportsFail && !blank then err.greater .warning else err
+  let err1 := err.warnIf (s2.failed && cfg.intReportsFail && !blank)
   let (s3, err2) := checkRemainingInput delims s2 err1
   (val, s3, err2)
 
@@ -170,7 +173,7 @@ def readReal {F} (ops : FloatOps F) (cfg : LexCfg) (delims : Option (List Byte))
         let (s3, err2) := checkRemainingInput delims s2 (err.greater e)
         .ok (some v, s3, err2)
       | _ =>
-        let err1 := if cfg.realReportsFail && !buf.isEmpty then err.greater .warning else err
+        let err1 := err.warnIf (cfg.realReportsFail && !buf.isEmpty)
         let (s3, err2) := checkRemainingInput delims s2 err1
         .ok (none, s3, err2)
 
@@ -187,7 +190,7 @@ def readNumber {F} (ops : FloatOps F) (cfg : LexCfg) (delims : Option (List Byte
       match ops.conv text with
       | .ok v => (some v, s2)
       | _ => (none, s2.setFail true)
-  let err1 := if s3.failed && cfg.numberReportsFail && !blank then err.greater .warning else err
+  let err1 := err.warnIf (s3.failed && cfg.numberReportsFail && !blank)
   let (s4, err2) := checkRemainingInput delims s3 err1
   (val, s4, err2)
 
@@ -274,8 +277,8 @@ def readBinary (cfg : LexCfg) (needDelims : Bool) (s : IStream) (err : Sev) : Li
       let s5 := if s4.good && c2 != 34 then s4.putback c2 else s4
       let str := strRev.reverse
       let vd : Bool := if c2 == 34 then !vd0 else if needDelims then false else vd0
-      let err1 := if !vd then err.greater .warning else err
-      let err2 := if cfg.binaryRejectsEmpty && str.isEmpty then err1.greater .warning else err1
+      let err1 := err.warnIf (!vd)
+      let err2 := err1.warnIf (cfg.binaryRejectsEmpty && str.isEmpty)
       (str, s5, err2)
     else (([] : List Byte), s2, err.greater .warning)
 
@@ -331,9 +334,9 @@ def readEnum (cfg : LexCfg) (k : EnumKind) (needDelims : Bool) (s : IStream) (er
         let found := match found with
           | some i => if cfg.logicalRejectsUnset && k.isUnsetIdx i then none else some i
           | none => none
-        let err1 := if found.isNone then err.greater .warning else err
+        let err1 := err.warnIf found.isNone
         let vd : Bool := if c3 == 46 then !vd0 else if needDelims then false else vd0
-        let err2 := if !vd then err1.greater .warning else err1
+        let err2 := err1.warnIf (!vd)
         (found, s6, err2)
       else if c3 == 46 || !vd0 then (none, s6, err.greater .warning)
       else (none, s6, err.greater .incomplete)
